@@ -49,7 +49,10 @@ Viol(c) ==
 Report == a # 1 \/ Viol(TR[t]) = {} \/ PrintT(<<"VIOL", t, Viol(TR[t])>>)
 (* ---------------- drift ---------------- *)
 AtEnd == a > Len(TR[t].acts)
-Drift == AtEnd /\ ~(finalized /\ ops = RealOps(TR[t]))
+\* (OverlayStream.tla reads the old file a full window at a time. When the old file is DELIVERED in short reads -
+\*  shortold - the real writer emits what it could not compare as FRESH: the result is still the new file, the op list
+\*  is another one. Those sessions are judged above but their op list is not compared with the model's.)
+Drift == AtEnd /\ ~TR[t].shortold /\ ~(finalized /\ ops = RealOps(TR[t]))
 ReportDrift == ~Drift \/ PrintT(<<"DRIFT", t>>)
 Stats == ~AtEnd \/ PrintT(<<"STAT", t, Len(TR[t].acts), Len(TR[t].ops)>>)
 =============================================================================
